@@ -641,9 +641,13 @@ func cmdRun(args []string) int {
 			"real_vs_stub":        chk.RealStub,
 		},
 	}
-	os.MkdirAll(filepath.Join(verifDir(), "evidence"), 0o755)
+	evDir := filepath.Join(verifDir(), "evidence")
+	if d := os.Getenv("VERIF_EVIDENCE_DIR"); d != "" {
+		evDir = d
+	}
+	os.MkdirAll(evDir, 0o755)
 	eb, _ := json.MarshalIndent(ev, "", " ")
-	if err := os.WriteFile(filepath.Join(verifDir(), "evidence", *prop+".json"), eb, 0o644); err != nil {
+	if err := os.WriteFile(filepath.Join(evDir, *prop+".json"), eb, 0o644); err != nil {
 		fmt.Fprintln(os.Stderr, "vcheck: cannot write evidence:", err)
 		return 2
 	}
